@@ -77,5 +77,32 @@ ARefineHelper(kl, add, dens) ==
   /\ Step([a |-> "refine_helper", kl |-> kl, add |-> add, dens |-> dens],
           RefineFrom(obj, 1, Bisect(SortedRats(RangeOf(kl) \cup RangeOf(add)), dens), 1))
 
+\* ---- control-point views of rational objects ---------------------------------------------------------
+\* Derived views (what the getters must return for the current definition)
+ViewCtrlpts(s) == Ctrlpts(s)
+ViewWeights(s) == Weights(s)
+ViewCtrlptsW(s) == s.P
+\* deterministic replacement data: k selects a variant
+NewPts(s, k) == GenNet(Len(s.P), CDim(s) - (IF s.rat THEN 1 ELSE 0), FALSE, 3 + k)
+NewWts(s, k) == TLCEval([i \in 1..Len(s.P) |-> NetW(i + 1, k)])
+ASetCtrlpts(k) ==      \* obj.ctrlpts = P : weights are kept
+  /\ "set_ctrlpts" \in Acts
+  /\ Step([a |-> "set_ctrlpts", k |-> k, P |-> NewPts(obj, k)],
+          [obj EXCEPT !.P = IF obj.rat THEN Combine(NewPts(obj, k), Weights(obj)) ELSE NewPts(obj, k)])
+ASetWeights(k) ==      \* obj.weights = W : unweighted points are kept
+  /\ "set_weights" \in Acts /\ obj.rat
+  /\ Step([a |-> "set_weights", k |-> k, W |-> NewWts(obj, k)], [obj EXCEPT !.P = Combine(Ctrlpts(obj), NewWts(obj, k))])
+ASetCtrlptsW(k) ==     \* obj.ctrlptsw = Pw
+  /\ "set_ctrlptsw" \in Acts /\ obj.rat
+  /\ LET Pw == GenNet(Len(obj.P), CDim(obj) - 1, TRUE, 5 + k) IN
+     Step([a |-> "set_ctrlptsw", k |-> k, Pw |-> Pw], [obj EXCEPT !.P = Pw])
+AScaleWeights(c) ==    \* obj.weights = [c * w for w in obj.weights]
+  /\ "scale_weights" \in Acts /\ obj.rat
+  /\ LET W == TLCEval([i \in 1..Len(obj.P) |-> RMul(c, Weights(obj)[i])]) IN
+     Step([a |-> "scale_weights", c |-> c, W |-> W], [obj EXCEPT !.P = Combine(Ctrlpts(obj), W)])
+ARead(v) ==            \* a getter is called (an action: it may populate caches in the implementation)
+  /\ "read" \in Acts
+  /\ Step([a |-> "read", v |-> v], obj)
+
 Emit == hist # <<>> => PrintT("CASE " \o ToJson([sh0 |-> sh0, hist |-> hist, obj |-> obj]))
 =============================================================================
